@@ -25,7 +25,10 @@ RULE = ("all shapes with <= 8 cells + seeded random shapes (orders 1-5, singleto
         "shorter / longer / mixed shapes (1-4 modes); aggregator inputs with arbitrary multiplicities, unsorted, zero-summing "
         "groups, 9 reducers, inferred and explicit shapes, malformed (out of range, count mismatch); random sparse generators "
         "with counts 0..size and beyond, dyadic densities up to 1, seeds 0.., draws captured from numpy.random.uniform; "
-        "teneye for (order,size) in {2}x{1..4}, {4}x{1..3}, {6}x{2}; malformed stream: negative / zero / empty / fractional "
+        "near-saturation requests size-1 / size-2 (the union fallback of the A-46 repair decides); INJECTED low-entropy draw streams "
+        "(numpy.random.uniform replaced by u = (j+1/2)/levels, levels 1/2/4: all ten draws and mostly their union stay short); "
+        "teneye for (order,size) in {2}x{1..4}, {4}x{1..3}, {6}x{2} (entries against pyttb's count AND the closed entry formula), "
+        "(8,2), (6,3) against the closed formula only; malformed stream: negative / zero / empty / fractional "
         "shapes for tenones, tenzeros, tenrand, tendiag, sptendiag, orders <= 0 / odd and negative sizes for teneye, "
         "densities outside (0,1], 2-d element arrays; aggregator inputs with pairwise distinct subscripts and zero values; "
         "wave 3 (c20_w3.py): function outputs / element vectors / subscript and value arrays as F-, C-ordered, transposed, strided and "
@@ -43,6 +46,9 @@ CORRESPONDENCE_ONLY = [
     "request normalisation of sptensor.from_function / sptenrand: the double products prod(shape)*nonzeros and "
     "prod(shape)*density are computed by numpy and enter the model as inputs (C20_request_float_product: exact product => "
     "exact-rational model)",
+    "teneye: the general closed entry formula (C20Gen.teneye_formula) beyond order 4 - stated as C20_teneye_entry_formula_stmt, proved only "
+    "for orders <= 4, odd-multiplicity and constant subscripts (C20_teneye_entry_formula_partial); compared with pyttb's tensor on the "
+    "generated cases (orders 2, 4, 6, 8); the identity action itself is proved for every even order",
     "global-seed discipline of the random generators (the uniform calls they make are exactly the next draws of the global "
     "generator seeded by numpy.random.seed, nothing else is drawn and nothing is reseeded): observed on generated sequences of "
     "calls against an independent numpy.random.RandomState(seed); numpy's generator itself is not modelled",
@@ -57,13 +63,14 @@ EXPLANATION = ("Deterministic generators: theorems for all shapes/values over an
                "correspondence replays numpy's draws (captured by wrapping numpy.random.uniform) through the model and "
                "compares raw stored lists and the number of draws consumed (seeded reproducibility = output is a function "
                "of the captured stream; additionally every seeded call is executed twice and must coincide). After the repairs "
-               "of C20-N1/N2/N4 only the repaired behaviour is accepted; the alternative 'what the property asks' is accepted "
-               "only inside the trigger regions of the open findings A-46 / C20-N3, which the Coq check computes from the case "
-               "(first captured draw has a repeated row; request equals the tensor size); inside the A-46 region the exact "
-               "behaviour of the proposed repair (union of all draws as a fallback, C20_sprand_union_repair) is accepted too. "
+               "of C20-N1/N2/N4/N6/N7/N8 and A-46 only the repaired behaviour is accepted (A-46: the redraw loop with the union of "
+               "all consumed draws as a fallback, C20Gen.sprand_subs; C20_sprand_count states what is guaranteed: nnz = "
+               "min(request, distinct rows over all consumed draws)); the alternative 'what the property asks' is accepted "
+               "only inside the trigger region of the open finding C20-N3, which the Coq check computes from the case "
+               "(request equals the tensor size). "
                "Corner requests of tendiag / sptendiag / from_aggregator (no element, empty shape, no pair, sizes below one) are "
                "checked against request models that state what the property demands (C20_tendiag_request, C20_sptendiag_request, "
-               "C20_aggregator_request); pyttb's two deviations are the open findings C20-N6 / C20-N7 (triggers).")
+               "C20_aggregator_request).")
 
 REDUCERS = {
     "sum": "RSum", "max": "RMax", "min": "RMin", "prod": "RProd", "first": "RFirst", "last": "RLast", "len": "RLen",
@@ -222,12 +229,46 @@ def gen_cases(rng, tier):
     cases.append(Case("sp_from_function", {"shape": [2, 3], "p": 0, "q": 1, "fn": "ones", "seed": 0}, True))
     cases.append(Case("sp_from_function", {"shape": [2, 3], "p": 5, "q": 1, "fn": "ones", "seed": 0}, True))
     cases.append(Case("sptenrand", {"shape": [2, 2], "mode": "density", "p": 1, "q": 1, "seed": 0}, True))
+    # witnesses of the repaired findings kept as ordinary regression cases: A-46 is the (2,3) request 5 seed 0 above;
+    # C20-N6 tendiag without element, C20-N7 sptendiag with elements and the empty shape; C20-N8 a numpy-typed count
+    for lay in ("plain", "list"):
+        cases.append(Case("diag2", {"kind": "tendiag", "e": [], "shape": [2, 2], "edtype": "float", "elayout": lay, "order": "F"}, False))
+        cases.append(Case("diag2", {"kind": "sptendiag", "e": [1, 2], "shape": [], "edtype": "float", "elayout": lay, "order": None}, True))
+    cases.append(Case("sptenrand", {"shape": [3, 4], "mode": "nonzeros", "p": 3, "q": 1, "seed": 0, "ntype": "np"}, True))
+    # near saturation (the redraw loop cannot succeed, the union fallback of the A-46 repair decides): request size-1 / size-2
+    for k, shp in enumerate([(5, 5), (4, 3, 2), (7,), (2, 2, 2, 2), (3, 3)]):
+        total = math.prod(shp)
+        for r in (total - 1, total - 2):
+            cases.append(Case("sp_from_function", {"shape": list(shp), "p": r, "q": 1, "fn": ("counter", "uniform", "ones")[k % 3],
+                                                   "seed": 7000 + 10 * k + r}, True))
+            cases.append(Case("sptenrand", {"shape": list(shp), "mode": "nonzeros", "p": r, "q": 1, "seed": 7100 + 10 * k + r}, True))
+    # INJECTED low-entropy draws (numpy.random.uniform replaced by a prepared stream): every draw repeats rows, mostly all ten
+    # draws AND their union stay short of the request - the clamp of the count, the fallback and the truncation decide
+    fs = 0
+    for shp in ([3], [2, 3], [3, 3], [4, 3, 2], [1, 4]):
+        total = math.prod(shp)
+        for L in (1, 2, 4):
+            for r in sorted({1, 2, 3, max(1, total // 2), total - 1}):
+                if r >= total:
+                    continue
+                fn = ("counter", "ones", "uniform")[fs % 3]
+                cases.append(Case("sp_from_function", {"shape": shp, "p": r, "q": 1, "fn": fn, "seed": 0,
+                                                       "forced": {"levels": L, "fseed": fs}}, True))
+                if fs % 2 == 0:
+                    cases.append(Case("sptenrand", {"shape": shp, "mode": "nonzeros", "p": r, "q": 1, "seed": 0,
+                                                    "forced": {"levels": L, "fseed": fs}}, True))
+                fs += 1
     # teneye
     for m, n in [(2, 1), (2, 2), (2, 3), (2, 4), (4, 1), (4, 2), (4, 3)] + ([(6, 2)] if big else []):
         x = [Fraction(rng.randint(-3, 3), rng.randint(1, 3)) for _ in range(n)]
         cases.append(Case("teneye", {"m": m, "n": n, "x": [[v.numerator, v.denominator] for v in x]}, n > 1))
     for m in (1, 3, 5):
         cases.append(Case("teneye", {"m": m, "n": 2, "x": [[1, 1], [1, 2]]}, True))
+    # larger orders against the closed entry formula only (8! rearrangements per subscript are left to pyttb)
+    for m, n in [(8, 2), (6, 3)]:           # (10,2) takes pyttb three minutes
+        x = [Fraction(rng.randint(-3, 3), rng.randint(1, 3)) for _ in range(n)]
+        x[0] = x[0] or Fraction(1, 2)
+        cases.append(Case("teneye", {"m": m, "n": n, "x": [[v.numerator, v.denominator] for v in x], "formula_only": True}, True))
     # ---- malformed stream: ill-formed requests
     zshapes = [[-1, 2], [2, -3], [-2, -2], [0, 2], [2, 0], [0], [-1], [], [3, 0, -1], [1, 2, 3], [2, 2], [4]]
     zshapes += [[rng.choice([-2, -1, 0, 1, 2, 3]) for _ in range(rng.randint(1, 4))] for _ in range(40 if big else 12)]
@@ -306,8 +347,30 @@ def _call_random(np, ttb, c, reseed=True):
         assert Fraction(float(dens)) == req and Fraction(float(reqf)) == req
     if reseed:
         np.random.seed(a["seed"])
+    real_uniform = np.random.uniform
+    if a.get("forced"):
+        # INJECTED draws: numpy.random.uniform is replaced by a prepared low-entropy stream u = (j + 1/2) / levels, so that draws
+        # repeat rows far more often than the real generator ever would (all ten draws short, even their union short): the
+        # post-processing (redraw loop, union fallback, clamp of the count, truncation) is then compared with the model,
+        # whose theorems hold for ARBITRARY draw matrices
+        import random as _random
+        fr = _random.Random(a["forced"]["fseed"])
+        L = a["forced"]["levels"]
+
+        def fake_uniform(low=0, high=1, size=None):
+            shape_ = tuple(size) if size is not None else ()
+            n_ = int(np.prod(shape_)) if shape_ else 1
+            return np.array([(fr.randrange(L) + 0.5) / L for _ in range(n_)], dtype=float).reshape(shape_)
+        np.random.uniform = fake_uniform
+    try:
+        return _call_random_inner(np, ttb, c, shp, reqf, dens)
+    finally:
+        np.random.uniform = real_uniform
+
+
+def _call_random_inner(np, ttb, c, shp, reqf, dens):
+    a = c.args
     cap = Capture(np)
-    nvals = []
     with cap:
         try:
             if c.op == "sptenrand":
@@ -620,7 +683,10 @@ def coq_check(c, o):
             return "false"
         x = "[" + "; ".join(gq(Fraction(p, q)) for p, q in a["x"]) + "]"
         A = tgen.gqdense(o["shape"], o["data"])
-        return f"teneye_agrees {a['m']} {a['n']} {A} && teneye_identity_ok {A} {a['m']} {a['n']} {x}"
+        # entries against the closed form (teneye_formula) and - unless the m! rearrangements per subscript are too many for
+        # the quick tier - against the transliteration of pyttb's count (teneye_count); the identity action on the observed tensor
+        chk = f"teneye_formula_agrees {a['m']} {a['n']} {A} && teneye_identity_ok {A} {a['m']} {a['n']} {x}"
+        return chk if a.get("formula_only") else f"teneye_agrees {a['m']} {a['n']} {A} && " + chk
     if c.op in W3.OPS:
         return W3.check(c, o)
     raise ValueError(c.op)
@@ -755,7 +821,14 @@ def oracle(c, o):
         w = _wf_sparse(res, a["shape"])
         if w:
             return w
-        if res["shape"] != a["shape"] or res["nnz"] != want:
+        if res["shape"] != a["shape"] or len(res["vals"]) != res["nnz"]:
+            return f"shape {res['shape']} / {len(res['vals'])} values for {res['nnz']} stored subscripts"
+        if a.get("forced"):
+            # injected draws cannot reach every request: at most the request, and short only if the draws were short
+            distinct = {tuple(int((Fraction(m_, 2 ** 53) * d)) for m_, d in zip(row, a["shape"])) for dr in o["draws"] for row in dr}
+            if res["nnz"] != min(want, len(distinct)):
+                return f"nnz {res['nnz']} != min(request {want}, {len(distinct)} distinct rows over all consumed draws)"
+        elif res["nnz"] != want:
             return f"nnz {res['nnz']} != requested {want}"
         if not o["repro"]:
             return "not reproducible under the same seed"
@@ -825,7 +898,7 @@ def oracle(c, o):
     return None
 
 
-# ---------------------------------------------------------------- known findings (open: A-46, C20-N3, C20-N6, C20-N7, C20-N8)
+# ---------------------------------------------------------------- known findings (open: C20-N3 only)
 def _total(c):
     return math.prod(c.args["shape"])
 
@@ -834,56 +907,16 @@ def _req(c):
     return Fraction(c.args["p"], c.args["q"])
 
 
-def _norm_count(c):
-    """count after the (repaired) code's normalisation, or None if rejected"""
-    total, r = _total(c), _req(c)
-    if c.op == "sptenrand" and c.args["mode"] == "density":
-        if not 0 < r <= 1:
-            return None
-        r = Fraction(math.floor(float(total) * float(r)))
-    if r < 0 or r >= total:
-        return None
-    return math.ceil(float(total) * float(r)) if r < 1 else math.floor(r)
-
-
-def _first_draw_repeats(c):
-    import numpy as np
-    nz = _norm_count(c)
-    if not nz or nz < 2:
-        return False
-    np.random.seed(c.args["seed"])
-    shp = c.args["shape"]
-    subs = (np.random.uniform(size=[nz, len(shp)]).dot(np.diag(shp))).astype(int)
-    return len({tuple(r) for r in subs.tolist()}) < nz
-
-
-# The trigger regions of the two OPEN findings (named in findings.d/C20.jsonl). The either-or "faithful model OR what the
-# property asks" is evaluated INSIDE the Coq check and only inside these regions (C20Harness.a46_region / n3_region, computed
-# from the captured draws / the two request readings); everywhere else pyttb must agree with the faithful model of the
-# repaired code. The Python predicates below restate the regions for the evidence; no mismatch is attributed through them.
+# The trigger region of the one OPEN finding (C20-N3, findings.d/C20.jsonl). The either-or "faithful model OR what the
+# property asks" is evaluated INSIDE the Coq check and only inside this region (C20Harness.n3_region, computed from the two
+# request readings); everywhere else pyttb must agree with the faithful model of the repaired code. The Python predicate
+# below restates the region for the evidence; no mismatch is attributed through it (TRIGGERS is empty: the triggers of the
+# repaired findings A-46, C20-N1/N2/N4/N5/N6/N7/N8 are gone, their witnesses are ordinary cases of gen_cases).
 INPUT_CLASSES = {
-    "first_draw_has_repeated_row": lambda c: c.op in ("sp_from_function", "sptenrand") and _first_draw_repeats(c),
     "request_equals_size": lambda c: c.op in ("sp_from_function", "sptenrand")
     and ((_req(c) == 1) if (c.op == "sptenrand" and c.args["mode"] == "density") else _req(c) == _total(c)),
 }
-# wave 3 (open, proposed fixes in fixes/): the model is the CORRECT behaviour, mismatches inside these classes are attributed
-# C20-N6: tendiag with NO element and a non-empty requested shape crashes in tensor.__setitem__ (max of an empty array)
-INPUT_CLASSES["tendiag_no_element"] = lambda c: (c.op == "diag2" and c.args["kind"] == "tendiag" and not c.args["e"]
-                                                 and bool(c.args["shape"]))
-# C20-N7: sptendiag with elements and the EMPTY requested shape silently returns an empty order-0 tensor
-INPUT_CLASSES["sptendiag_empty_shape"] = lambda c: (c.op == "diag2" and c.args["kind"] == "sptendiag" and bool(c.args["e"])
-                                                    and c.args["shape"] == [])
-# C20-N8: sptenrand rejects a request given as a numpy scalar other than np.float64 (isinstance(.., (int, float)))
-INPUT_CLASSES["numpy_typed_request"] = lambda c: c.op == "sptenrand" and c.args.get("ntype") == "np"
-TRIGGERS = {k: INPUT_CLASSES[k] for k in ("tendiag_no_element", "sptendiag_empty_shape", "numpy_typed_request")}
-
-
-def _w_a46():
-    import numpy as np
-    import pyttb as ttb
-    np.random.seed(0)
-    S = ttb.sptensor.from_function(np.ones, (2, 3), 5)
-    return None if S.nnz == 5 else f"from_function(np.ones,(2,3),5) under seed 0 returned nnz={S.nnz}"
+TRIGGERS = {}
 
 
 def _w_full():
@@ -895,36 +928,4 @@ def _w_full():
     return None if S.nnz == 4 else f"density 1.0 returned nnz={S.nnz}"
 
 
-def _w_tendiag_no_element():
-    import numpy as np
-    import pyttb as ttb
-    try:
-        T = ttb.tendiag(np.array([]), (2, 2))
-    except Exception as ex:
-        return f"tendiag(np.array([]), (2,2)) raised {type(ex).__name__}: {str(ex)[:80]}"
-    return None if T.shape == (2, 2) and not T.data.any() else f"tendiag(np.array([]), (2,2)) returned shape {T.shape}"
-
-
-def _w_sptendiag_empty_shape():
-    import numpy as np
-    import pyttb as ttb
-    try:
-        S = ttb.sptendiag(np.array([1.0, 2.0]), ())
-    except (ValueError, AssertionError):
-        return None
-    return f"sptendiag([1,2], ()) returned a sparse tensor of shape {S.shape} with nnz={S.nnz}: the elements are dropped silently"
-
-
-def _w_numpy_typed():
-    import numpy as np
-    import pyttb as ttb
-    np.random.seed(0)
-    try:
-        S = ttb.sptenrand((3, 4), nonzeros=np.prod((3, 4)) // 4)
-    except ValueError as ex:
-        return f"sptenrand((3,4), nonzeros=np.prod((3,4))//4) raised ValueError: {str(ex)[:80]}"
-    return None if S.nnz == 3 else f"nnz={S.nnz}"
-
-
-WITNESSES = {"A-46": _w_a46, "C20-N3": _w_full, "C20-N6": _w_tendiag_no_element, "C20-N7": _w_sptendiag_empty_shape,
-             "C20-N8": _w_numpy_typed}
+WITNESSES = {"C20-N3": _w_full}
